@@ -15,7 +15,13 @@ RULE = ("correspondence: extracted Coq model of parse_directive_text vs the impl
         "and handed to the model as tables keyed by their argument (a different option block = table miss = disagreement); "
         "search: the property clauses re-computed independently in Python from the content lines (split at CRLF/CR/LF); "
         "non-trivial = content has an option block, or arguments are parsed, or a warning/MarkupError results")
-TRUSTED = ["coq/Dir/DirModel.v + PyLines.v are hand transcriptions of parse_directive_text/_parse_directive_options/"
+TRUSTED = ["gen/c08_dirsrc.py: statement-by-statement translation of split_lines / parse_directive_arguments / "
+           "_parse_directive_options / parse_directive_text into coq/Gen/DirSrc.v, proved equal to the model (C08_src_refines_model); "
+           "trusted there: the walker itself and its domain mapping (coq/Dir/PyRuntime.v: _RE_NEWLINE.split, lines[-1], "
+           "split(None, k), `x or \"\"`, yaml `or {}` / isinstance dict, re.search('^-{3,}', MULTILINE) = first line starting with "
+           "'---'; str methods -> PyLines; externals -> tokenize / yaml_load / opt_known / opt_conv / opt_is_flag / is_test; "
+           "ParseWarnings -> constructor by type argument and interpolated names, not by wording)",
+           "coq/Dir/DirModel.v + PyLines.v are hand transcriptions of parse_directive_text/_parse_directive_options/"
            "parse_directive_arguments and of str.splitlines/strip/split/join/textwrap.dedent (checked by correspondence, not proved)",
            "Python re: '^-{3,}' with MULTILINE on a '\\n'-joined text finds the first line starting with '---'",
            "options_to_items (other team's model, C07), docutils option converters, yaml.safe_load: oracles (tables)"]
@@ -378,10 +384,18 @@ def shards(ctx, kind):
     # depth 3 with every first line; classes without option_spec: depth 3 (their content is never interpreted)
     full = contents_count(nmax)
     step = 40000
-    big = with_spec if kind == "corr" or ctx.deep else with_spec[:6] if ctx.tier == "thorough" else with_spec[:4]
+    quick = ctx.tier != "thorough" and not ctx.deep
+    if kind == "corr":
+        big = with_spec[:5] if quick else with_spec      # quick: the other representatives one line less
+    else:
+        big = with_spec[:6] if ctx.tier == "thorough" and not ctx.deep else with_spec[:3] if quick else with_spec
     for lab in big:
         for lo in range(0, full, step):
             units.append(("ex", lab, [""], lo, min(full, lo + step), nmax))
+    if kind == "corr" and quick:
+        less = contents_count(nmax - 1)
+        for lab in with_spec[5:]:
+            units.append(("ex", lab, [""], 0, less, nmax - 1))
     small = contents_count(3)
     for lab in with_spec + without:
         units.append(("ex", lab, FIRST_LINES if lab in with_spec else FIRST_LINES, 0, small, 3))
